@@ -189,7 +189,7 @@ Section Proofs.
   Lemma of_addr_roundtrip cls m a ep :
     addr_ok cls a ep = true -> of_addr C cls (to_mich m (VAddr a ep)) = Ok (VAddr a ep).
   Proof.
-    intro H. destruct m; unfold Values.to_mich; cbn [tm fst of_addr];
+    intro H. destruct m; unfold Values.to_mich; cbn [tm fst addr_node of_addr];
       [apply addr_readable | apply addr_optimized | apply addr_optimized]; exact H.
   Qed.
 
@@ -266,6 +266,20 @@ Section Proofs.
   Proof.
     intros IH H. apply map_result_map. rewrite forallb_forall in H.
     apply Forall_forall. intros x Hx. apply (proj1 (IH x (H x Hx))).
+  Qed.
+
+  Lemma rt_ticket t : RT t -> RT (TTicket t).
+  Proof.
+    intros IH v H. destruct v; try discriminate H. cbn [Values.has_type] in H.
+    rewrite !andb_true_iff in H. destruct H as [[Ha Hx] Hz].
+    split; [|intros ? ? ? E; discriminate E]. intro m.
+    pose proof (of_addr_roundtrip AnyAddress m a ep Ha) as A.
+    change (Values.to_mich C m (VAddr a ep)) with (addr_node C m a ep) in A.
+    pose proof (proj1 (IH v Hx) m) as X. unfold Values.to_mich in X.
+    destruct m; unfold Values.to_mich; cbn [tm fst]; cbn [Values.of_mich pair_args];
+      change (byte_eqb T_Pair T_Pair) with true; cbv iota; cbn [pair_args];
+      try (change (byte_eqb T_Pair T_Pair) with true; cbv iota);
+      rewrite A, X; cbn [ticket_of bind]; rewrite Hz; reflexivity.
   Qed.
 
   Lemma roundtrip_all : forall t, RT t.
@@ -366,6 +380,7 @@ Section Proofs.
       rewrite E. cbn [Values.of_mich].
       destruct (lam_norm (NSeq items)) as [c|]; [|discriminate H].
       cbn [result_eqb] in H. apply node_eqb_spec in H. subst c. reflexivity.
+    - (* ticket *) apply rt_ticket; assumption.
   Qed.
 
   Theorem roundtrip m t v : has_type t v = true -> of_mich t (to_mich m v) = Ok v.
@@ -525,6 +540,8 @@ Fixpoint str_utf8 (n : node) : bool :=
 Fixpoint no_empty_ep (v : val) : bool :=
   match v with
   | VAddr _ (Some []) => false
+  | VTicket _ (Some []) _ _ => false
+  | VTicket _ _ x _ => no_empty_ep x
   | VSome a | VLeft a | VRight a => no_empty_ep a
   | VPair a b => no_empty_ep a && no_empty_ep b
   | VList l => (fix go (l : list val) : bool :=
@@ -663,6 +680,23 @@ Section Soundness.
       cbn [Nat.eqb andb]. apply ep_ok_norm.
       + destruct (Nat.ltb 22 (List.length b)); [exact Eu|exact I].
       + apply (addr_nonempty a). exact Hn.
+  Qed.
+
+  Lemma pair_args_utf8 n args : pair_args n = Some args -> str_utf8 n = true -> forallb str_utf8 args = true.
+  Proof.
+    destruct n; try discriminate; cbn [pair_args].
+    - destruct (byte_eqb tag T_Pair); [|discriminate]. intros [= <-]. rewrite str_utf8_prim. exact (fun H => H).
+    - intros [= <-]. rewrite str_utf8_seq. exact (fun H => H).
+  Qed.
+
+  Lemma ticket_of_inv ra ri z v :
+    ticket_of ra ri z = Ok v ->
+    exists a ep i k, ra = Ok (VAddr a ep) /\ ri = Ok i /\ z = NInt k /\ (0 <=? k)%Z = true /\ v = VTicket a ep i k.
+  Proof.
+    unfold ticket_of. destruct ra as [va|]; [|discriminate]. destruct ri as [vi|]; [|discriminate]. cbn [bind].
+    destruct va; try discriminate. destruct z; try discriminate.
+    destruct (0 <=? z)%Z eqn:E; [|discriminate]. intros [= <-].
+    repeat eexists; try reflexivity. exact E.
   Qed.
 
   Definition PW (t : ty) : Prop :=
@@ -806,6 +840,26 @@ Section Soundness.
       destruct (lam_norm (NSeq items)) as [c|] eqn:E; [|discriminate H]. injection H as <-.
       destruct (lam_idem _ _ E) as [Hc (l & ->)]. cbn [Values.has_type]. rewrite Hc.
       cbn [result_eqb]. apply node_eqb_spec. reflexivity.
+    - (* ticket *)
+      assert (B : forall x i z, str_utf8 x = true -> str_utf8 i = true ->
+                  ticket_of (of_addr C AnyAddress x) (of_mich t i) z = Ok v -> has_type (TTicket t) v = true).
+      { intros x i z Ux Ui Ht. apply ticket_of_inv in Ht. destruct Ht as (a & ep & vi & k & Ea & Ei & -> & Ek & ->).
+        assert (N : no_empty_ep (VAddr a ep) = true /\ no_empty_ep vi = true).
+        { cbn [no_empty_ep] in Hn. destruct ep as [[|c e]|]; [discriminate Hn| |]; split; try exact Hn; reflexivity. }
+        destruct N as [N1 N2].
+        destruct (of_addr_sound AnyAddress x _ Ux Ea N1) as (a' & ep' & E' & Hok). injection E' as <- <-.
+        cbn [Values.has_type]. rewrite Hok, (IHt i vi Ui Ei N2), Ek. reflexivity. }
+      destruct (pair_args n) as [args|] eqn:Ep; [|discriminate H].
+      pose proof (pair_args_utf8 n args Ep Hu) as Ua.
+      destruct args as [|x [|y [|z [|w r]]]]; try discriminate H.
+      + cbn [forallb] in Ua. rewrite !andb_true_iff in Ua. destruct Ua as [Ux [Uy _]].
+        destruct (pair_args y) as [args2|] eqn:Ep2; [|discriminate H].
+        pose proof (pair_args_utf8 y args2 Ep2 Uy) as Ub.
+        destruct args2 as [|i [|z [|w r]]]; try discriminate H.
+        cbn [forallb] in Ub. rewrite !andb_true_iff in Ub. destruct Ub as [Ui _].
+        exact (B x i z Ux Ui H).
+      + cbn [forallb] in Ua. rewrite !andb_true_iff in Ua. destruct Ua as [Ux [Uy _]].
+        exact (B x y z Ux Uy H).
   Qed.
 End Soundness.
 
